@@ -66,6 +66,12 @@ def run(tier, seed):
         scen.append({"kind": "random", "threads": rng.choice([2, 3, 4]), "allocs": rng.choice([1, 2, 3]), "refs": rng.choice([0, 1, 2]), "start_id": sid, "start_serial": sser,
                      "start_ctr": rng.choice([0, 5, 2 ** 32 - 4]), "creation": rng.choice([1, 2 ** 32 - 1]), "schedule": [], "seed": rng.randrange(10 ** 9),
                      "via_node": rng.random() < 0.5})
+    # free-running bulk runs: what was issued must be exactly the first n members of PidAlloc!SeqIssue (hence pairwise distinct),
+    # across the 32-bit serial wrap and three more trips round the number space
+    bulk_total = 3 * MAXID + 50
+    for th in ((1, 4) if thorough else (1, 4)):
+        scen.append({"kind": "bulk", "threads": th, "total": bulk_total - bulk_total % th, "start_id": MAXID - 10, "start_serial": 2 ** 32 - 2, "creation": 7})
+    scen.append({"kind": "bulk", "threads": 2, "total": MAXID + 10, "start_id": 1, "start_serial": 0, "creation": 2 ** 32 - 1})
     # sequential allocations across several wraps
     scen.append({"kind": "sequential", "threads": 1, "allocs": 40, "start_id": MAXID - 3, "start_serial": 2 ** 32 - 2, "creation": 9, "schedule": []})
     sp = os.path.join(lib.outdir(PID), "scenarios.ndjson")
@@ -80,6 +86,16 @@ def run(tier, seed):
     # adversarial schedules must be infeasible on the real allocator
     for s, sm in zip(scen, summ):
         v.case(json.dumps(s))
+        if s["kind"] == "bulk":
+            case = {"threads": s["threads"], "allocations": sm["issued"], "from": [s["start_id"], s["start_serial"]]}
+            if sm["duplicates"]:
+                v.violation("the same process identifier was issued twice", {**case, "duplicates": sm["duplicates"], "first": sm["first_duplicate"]})
+            elif sm["not_in_spec_sequence"] or sm["sequence_members_not_issued"]:
+                v.violation("issued identifiers are not the first n of the allocator's sequence (number 1..max round and round, serial = wraps so far): identifiers of different trips will coincide",
+                            {**case, "issued_but_not_in_sequence": sm["not_in_spec_sequence"], "sequence_members_not_issued": sm["sequence_members_not_issued"]})
+            if sm["wrong_creation"]:
+                v.violation("identifiers issued with another creation than the one in force", {**case, "count": sm["wrong_creation"]})
+            continue
         if s["kind"] == "adversarial" and not sm["infeasible_steps"]:
             v.add_drift("the duplicate-producing schedule of the lock-free model was feasible on the real allocator", s)
     # ---- TLC validates the whole recorded trace (one JVM; scenarios separated by reset events)
@@ -105,7 +121,8 @@ def run(tier, seed):
             # the execution is not a behaviour of the implementation-shaped spec: explain it with the named deviations
             # (no mutual exclusion; then also reads of non-current counter values) and evaluate C16's invariants on it
             decided = False
-            for cfg, name in (("FALSE", "without mutual exclusion"), ("STALE", "without mutual exclusion and with reads of non-current counter values")):
+            for cfg, name in (("FALSE", "without mutual exclusion"), ("STALE", "without mutual exclusion and with reads of non-current counter values"),
+                              ("OBSERVED", "that binds only the calls and what they returned")):
                 r2 = lib.tlc("trace/Trace_PidAlloc.tla", f"trace/Trace_PidAlloc_{cfg}.cfg", PID, "trace_" + cfg.lower(), workers=1, env={"TRACE": tp}, timeout=3000)
                 if r2.violated:
                     v.violation(f"recorded execution of the real allocator violates {r2.violated} (it is not a behaviour of the locked spec from event {pos}: {json.dumps(ev)}; explained by the spec {name})",
